@@ -212,6 +212,140 @@ def paren_rule(chk, fx):
     chk.floor('conditional-expression templates of the transpiler', n, 2)
 
 
+def _str_pieces(e):
+    """pieces of a string-valued expression: literal text or '?' (run-time text); a list of alternatives (each a list of pieces)"""
+    e = T.peel(e)
+    k = e.get('k')
+    if k == 'Lit' and isinstance(e.get('v'), dict):
+        if 'str' in e['v']:
+            return [[e['v']['str']]]
+        if 'char' in e['v']:
+            return [[e['v']['char']]]
+    if k == 'MCall' and e['n'] in ('to_string', 'to_owned', 'into', 'clone', 'as_str') and not e['a']:
+        return _str_pieces(e['r'])
+    if k == 'Call' and T.last_seg(e.get('fn') or '') in ('from', 'to_string', 'to_owned') and len(e['a']) == 1:
+        return _str_pieces(e['a'][0])
+    if k == 'Match':
+        out = []
+        for a in e['arms']:
+            b = T.peel(a['b'])
+            if b.get('k') == 'Call' and 'panic' in (b.get('fn') or '') or any('unreachable' in m or 'panic' in m for m in (b.get('m') or [])):
+                continue
+            out += _str_pieces(a['b'])
+        return out or [['?']]
+    if k == 'If' and 'e' in e:
+        return _str_pieces(e['t']) + _str_pieces(e['e'])
+    if k == 'Block' and 'e' in e and not e.get('s'):
+        return _str_pieces(e['e'])
+    # format!(..): a block / call holding Arguments::new(template bytes, ..)
+    for n in T.walk(e):
+        if n.get('k') == 'Call' and (n.get('fn') or '').endswith("Arguments::<'a>::new") and n.get('a'):
+            bs = (T.peel(n['a'][0]).get('v') or {}).get('bytes')
+            if bs:
+                pieces, i = [], 0
+                while i < len(bs) and bs[i] != 0:
+                    ln = bs[i]
+                    if ln < 0x80:
+                        pieces.append(bytes(bs[i + 1:i + 1 + ln]).decode('utf-8', 'replace'))
+                        i += 1 + ln
+                    else:
+                        if not pieces or pieces[-1] != '?':
+                            pieces.append('?')
+                        i += 1
+                return [pieces]
+    return [['?']]
+
+
+def _string_paths(fn, var_hint=None):
+    """every way the function can build the string it returns: [[piece, ..], ..]"""
+    results = []
+
+    def run(stmts, state):
+        """state: dict local-name -> pieces (list); returns list of (state, returned pieces | None)"""
+        if not stmts:
+            return [(state, None)]
+        st, rest = T.unsemi(stmts[0]), stmts[1:]
+        k = st.get('k')
+        out = []
+        if k == 'Let' and st.get('init') is not None and st['pat'].get('k') == 'Bind':
+            for alt in _str_pieces(st['init']):
+                s2 = dict(state)
+                s2[st['pat']['n']] = list(alt)
+                out += run(rest, s2)
+            return out
+        if k == 'AssignOp' and st['op'] in ('+', '+=') and T.peel(st['x']).get('k') == 'Local' and T.peel(st['x'])['n'] in state:
+            nm = T.peel(st['x'])['n']
+            for alt in _str_pieces(st['y']):
+                s2 = dict(state)
+                s2[nm] = state[nm] + list(alt)
+                out += run(rest, s2)
+            return out
+        if k == 'MCall' and st['n'] in ('push', 'push_str') and T.peel(st['r']).get('k') == 'Local' and T.peel(st['r'])['n'] in state and st['a']:
+            nm = T.peel(st['r'])['n']
+            for alt in _str_pieces(st['a'][0]):
+                s2 = dict(state)
+                s2[nm] = state[nm] + list(alt)
+                out += run(rest, s2)
+            return out
+        if k == 'If':
+            branches = [st['t']] + ([st['e']] if 'e' in st else [{'k': 'Block', 's': []}])
+            for b in branches:
+                b = T.peel(b)
+                inner = T.stmts_of(b) if b.get('k') == 'Block' else [b]
+                for s2, ret in run(list(inner), dict(state)):
+                    if ret is not None:
+                        out.append((s2, ret))
+                    else:
+                        out += run(rest, s2)
+            return out
+        if k == 'Match' and rest == [] or (k == 'Match' and not rest):
+            for a in st['arms']:
+                b = T.peel(a['b'])
+                inner = T.stmts_of(b) if b.get('k') == 'Block' else [b]
+                out += run(list(inner), dict(state))
+            return out
+        if k == 'Ret':
+            return [(state, value_of(st.get('x'), state))]
+        if not rest:
+            return [(state, value_of(st, state))]
+        return run(rest, state)
+
+    def value_of(e, state):
+        e = T.peel(e)
+        if e.get('k') == 'Local' and e['n'] in state:
+            return state[e['n']]
+        alts = _str_pieces(e)
+        return alts[0] if len(alts) == 1 else ['?alt']
+    body = T.peel(fn['body'])
+    for s2, ret in run(list(T.stmts_of(body)) if body.get('k') == 'Block' else [body], {}):
+        if ret is not None:
+            results.append([p for p in ret if p != ''])
+    return results
+
+
+def enclosed_rule(chk, fx):
+    import re
+    chk.rule('C17-enclosed', 'the Python text PyScriptGenerator returns for an operator expression stands on its own under any neighbouring operator: every way transpile_binop and '
+                             'transpile_unaryop build their result starts with `(` or `name(` and ends with `)` (string construction followed path by path: literals, format templates, '
+                             '`+=` / push) — `-x ** 2` for Erg\'s `(-x) ** 2` is `-(x ** 2)` in Python')
+    for name in ('transpile_binop', 'transpile_unaryop'):
+        f = fx.fn(TR, 'PyScriptGenerator::' + name)
+        paths = _string_paths(f)
+        if not chk.need(paths, '%s: no way of building the result was recognised' % name):
+            continue
+        chk.count('result shapes of operator transpilers', len(paths))
+        for pieces in paths:
+            first, last = (pieces[0] if pieces else ''), (pieces[-1] if pieces else '')
+            shape = ''.join(p if p != '?' else '…' for p in pieces)[:50]
+            opened = first not in ('?', '?alt') and (first.startswith('(') or re.match(r'^[A-Za-z_][A-Za-z0-9_]*\(', first))
+            closed = last not in ('?', '?alt') and last.rstrip().endswith(')')
+            if opened and closed:
+                chk.ok('C17-enclosed', (name, shape), sample='%s: %s' % (name, shape))
+            else:
+                chk.bad('C17-enclosed', 'PyScriptGenerator::' + name, 'open:' + shape[:30], '%s can return `%s`, which is not enclosed in parentheses: under a tighter-binding neighbour '
+                        '(`**`, an attribute, a call) Python groups it differently — `(-x) ** 2` becomes `-x ** 2` = -(x ** 2)' % (name, shape), TR, f.get('line'))
+
+
 def classbody_rule(chk, fx):
     chk.rule('C17-classbody', 'a method stays an attribute of its class: PyScriptGenerator::transpile_def writes `global <name>` (its device for definitions inside helper functions) only '
                               'on a path that excludes the level of a class body, and transpile_classdef marks that level around the block of methods — `global show` inside `class C:` '
@@ -448,5 +582,6 @@ def run(chk):
     prelude_rule(chk, fx)
     kwname_rule(chk, fx)
     classbody_rule(chk, fx)
+    enclosed_rule(chk, fx)
     return ('Table rule across crates: the characters produced by the escape arms of the three string lexers (typed HIR) against the replace chain of PyScriptGenerator::escape_str. '
             'Behavioural equivalence of the transpiled script and the bytecode is not decided.'), {'exhaustive': True}
